@@ -271,7 +271,8 @@ class DataclassAdapter(GenericCallAdapter):
         kwargs = {}
 
         for field in fields(value):  # type: ignore
-            if field.repr:
+            # fields which are compared are needed even if repr() hides them
+            if field.repr or (field.init and field.compare):
                 field_value = getattr(value, field.name)
                 is_default = False
 
@@ -315,7 +316,8 @@ else:
             kwargs = {}
 
             for field in attrs.fields(type(value)):
-                if field.repr:
+                # fields which are compared are needed even if repr() hides them
+                if field.repr or (field.init and field.eq):
                     field_value = getattr(value, field.name)
                     is_default = False
 
@@ -391,23 +393,23 @@ else:
             kwargs = {}
 
             for name, field in get_fields(value).items():  # type: ignore
-                if getattr(field, "repr", True):
-                    field_value = getattr(value, name)
-                    is_default = False
+                # all fields are compared, also the ones which repr() hides
+                field_value = getattr(value, name)
+                is_default = False
 
-                    if field.default is not PydanticUndefined and is_default_value(
-                        field.default, field_value
-                    ):
-                        is_default = True
+                if field.default is not PydanticUndefined and is_default_value(
+                    field.default, field_value
+                ):
+                    is_default = True
 
-                    if field.default_factory is not None and is_default_value(
-                        field.default_factory(), field_value
-                    ):
-                        is_default = True
+                if field.default_factory is not None and is_default_value(
+                    field.default_factory(), field_value
+                ):
+                    is_default = True
 
-                    kwargs[cls.init_name(name, field)] = Argument(
-                        value=field_value, is_default=is_default
-                    )
+                kwargs[cls.init_name(name, field)] = Argument(
+                    value=field_value, is_default=is_default
+                )
 
             return ([], kwargs)
 
